@@ -235,6 +235,15 @@ func EnvStubs(st map[string]StubFn) {
 	st[vrtPkg+"SkeletonPath"] = func(r *Run, fr *frame, fn *ssa.Function, a []value) value {
 		return r.E.SkeletonRoot + "/" + a[0].(string) + "/setup.go"
 	}
+	st[vrtPkg+"CaptureStderr"] = func(r *Run, fr *frame, fn *ssa.Function, a []value) value {
+		start := len(r.Stderr)
+		r.call(fr, fr.callpos, a[0], nil)
+		var out value = ""
+		for _, v := range r.Stderr[start:] {
+			out = concatV(out, v)
+		}
+		return out
+	}
 	st[vrtPkg+"Choose"] = func(r *Run, fr *frame, fn *ssa.Function, a []value) value {
 		// an input-level choice: recorded as a named Int so that models/replays see it
 		k := int(asInt64(a[1]))
